@@ -328,7 +328,7 @@ func c03Flags(c *Ctx, batch int) {
 			rec.Length = c.R.Range(100, 700) // long passwords
 		}
 		if c.R.Chance(1, 12) { // lengths around machine-word and byte boundaries
-			rec.Length = []int{31, 32, 33, 63, 64, 65, 127, 128, 129, 255, 256, 257}[c.R.Intn(12)]
+			rec.Length = []int{31, 32, 33, 63, 64, 65, 127, 128, 129, 255, 256, 257, 4095, 4096, 4097, 5000}[c.R.Intn(16)]
 		}
 		// custom-string pattern
 		switch c.R.Intn(6) {
